@@ -141,7 +141,7 @@ def run(v, tier, seed):
         r = vlib.tlc("IsoTrace", "MenuDump.cfg", FAM, workers=1, timeout=600)
         if r.error or not r.printed: raise vlib.MachineryError("menu dump: %s" % (r.error or "nothing printed"))
         mf = W("menu.json"); vlib.write_ndjson(mf, [r.printed[0]])
-        return mf, len(r.printed[0]["menu"])
+        return mf, r.printed[0]["menu"]
 
     def validate(tr, tag, expect_accept=True):
         r = vlib.tlc("IsoTrace", "IsoTrace.cfg", FAM, workers=1, timeout=2400, heap="4g", env={"TRACE": tr})
@@ -150,15 +150,18 @@ def run(v, tier, seed):
         return {"accepted": r.violated == "NotAccepted", "other": r.violated if r.violated not in (None, "NotAccepted") else None,
                 "explained": max(r.distinct - 1, 0), "lines": nlines, "states": r.distinct, "trace": tr}
 
-    def random_histories(mf, nh, ns, shard, is_rerun=False):
-        rep = W("rep_rand%d.ndjson" % shard); tr = W("trace_rand%d.ndjson" % shard)
-        rc, out, err = vlib.run([srv, "isorand", mf, str(nh), str(ns), str(seed * 100 + shard), rep, tr, str(nh)], timeout=(280 if quick else 2400))
-        res = {"tag": "rand%d" % shard, "rc": rc, "rows": vlib.read_ndjson(rep) if os.path.exists(rep) else [], "stderr": err[-5000:], "cur": None, "n": nh}
+    def random_histories(mf, nh, ns, shard, is_rerun=False, scripts=None):
+        rep = W("rep_rand%s.ndjson" % shard); tr = W("trace_rand%s.ndjson" % shard)
+        extra = []
+        if scripts is not None:
+            sf = W("scripts.ndjson"); vlib.write_ndjson(sf, scripts); extra = [sf]; nh = len(scripts)
+        rc, out, err = vlib.run([srv, "isorand", mf, str(nh), str(ns), str(seed * 100 + (shard if isinstance(shard, int) else 99)), rep, tr, str(nh)] + extra, timeout=(280 if quick else 2400))
+        res = {"tag": "rand%s" % shard, "rc": rc, "rows": vlib.read_ndjson(rep) if os.path.exists(rep) else [], "stderr": err[-5000:], "cur": None, "n": nh}
         if rc != 0 or any(r.get("hang") for r in res["rows"]):
             try: res["cur"] = json.loads(open(rep + ".cur").read())
             except Exception: pass
-            if not is_rerun: res["rerun"] = lambda: random_histories(mf, nh, ns, shard, True)[0]
-        val = validate(tr, "rand%d" % shard) if (rc == 0 and os.path.getsize(tr) > 0) else None
+            if not is_rerun: res["rerun"] = lambda: random_histories(mf, nh, ns, shard, True, scripts)[0]
+        val = validate(tr, "rand%s" % shard) if (rc == 0 and os.path.getsize(tr) > 0) else None
         return res, val
 
     def diagnose(tr):
@@ -222,9 +225,31 @@ def run(v, tier, seed):
             if t[0] == ["hA", "s2", "a"]: t[1] = 99
         f_bad = ex.submit(replay, [bad], "selftest")
 
-        mf, nmenu = f_menu.result()
+        mf, menu = f_menu.result(); nmenu = len(menu)
         nh, ns = (60, 20) if quick else (1000, 40)
         f_rand = [ex.submit(random_histories, mf, nh, ns, k) for k in range(nshard)]
+        # directed histories in which SEVERAL sessions act (same monitors, validated by TLC like the random ones)
+        def ci(cmd):
+            for i, m in enumerate(menu):
+                if all(m[k] == cmd[k] for k in cmd): return i + 1
+            raise vlib.MachineryError("directed history: command not in the menu: %s" % cmd)
+        def S(who, cmd): return {"who": who, "ci": ci(cmd)}
+        def D(who, partial): return {"who": who, "a": "Depart", "partial": partial}
+        esc = ["hA", "s2", "q\\(1\\)"]; RMV = "!Rmv"
+        scripts = [
+            # a name with regex token characters, an all-literal subscription that escapes them, the node created AFTER the subscription; un-subscribe / departure
+            [S("s1", C("SUBSCRIBE", True, esc)), S("s2", C("SETDATA", False, ["q(1)"], pay=7)), S("s1", C("REMOVEPARAM", True, esc, x="SUBSCRIBE:")), S("s2", C("SETDATA", False, ["q(1)"], pay=7)), D("s1", False)],
+            [S("s1", C("SUBSCRIBE", True, esc)), S("s2", C("SETDATA", False, ["q(1)"], pay=7)), D("s1", True)],
+            [S("s3", C("SUBSCRIBE", True, esc)), S("s1", C("SUBSCRIBE", True, esc)), S("s2", C("SETDATA", False, ["q(1)"], pay=7)), D("s1", False), D("s3", True)],
+            # the same relative subscription sent twice while a matching node exists, then removed, then the departure
+            [S("s1", C("SUBSCRIBE", False, ["a", "*"])), S("s1", C("SUBSCRIBE", False, ["a", "*"])), S("s1", C("REMOVEPARAM", False, [], x="SUBSCRIBE:*")), D("s1", True)],
+            [S("s1", C("SUBSCRIBE", False, ["*"])), S("s2", C("SUBSCRIBE", False, ["*"])), S("s1", C("SUBSCRIBE", False, ["*"])), S("s1", C("REMOVEPARAM", False, ["*"], x="SUBSCRIBE:")), D("s1", True), D("s2", False)],
+            # a node with indexed AND plain children, a child taken out of the index but kept; removal and departure
+            [S("s1", C("SETDATA", False, ["a", "I0"], x="index", pay=5)), S("s1", C("SETDATA", False, ["a", "b"], pay=7)), S("s1", C("SETDATA", False, ["a", "I1"], x="index", pay=6)), S("s1", C("REORDERDATA", False, ["a", "*"], x=RMV)),
+             S("s1", C("REMOVEDATA", False, ["a"])), S("s1", C("SETDATA", False, ["a", "I0"], x="index", pay=5)), S("s1", C("SETDATA", False, ["a", "b"], pay=7)), D("s1", True), D("s2", False)],
+            # a node created quietly under others' subscriptions, updated aloud, creator departs; subscribers depart amid other clients' traffic
+            [S("s1", C("SETDATA", False, ["a", "b"], x="quiet", pay=7)), S("s1", C("SETDATA", False, ["a", "b"], pay=7)), S("s1", C("SUBSCRIBE", False, ["*"])), S("s1", C("SUBSCRIBE", False, ["*", "*"])), D("s2", True), D("s1", True), D("s3", False)]]
+        f_script = ex.submit(random_histories, mf, 0, 0, "script", False, [{"steps": s} for s in scripts])
 
         # ---- collect
         for f in f_mc:
@@ -245,7 +270,7 @@ def run(v, tier, seed):
         sb = f_bad.result()
         if not any(r.get("violations") for r in sb["rows"]): raise vlib.MachineryError("self-test: a behaviour with a corrupted expectation (payload of /hA/s2/a) was not reported by the harness")
         ragg = {"histories": 0, "clean": 0, "steps": 0, "traces_written": 0, "trace_lines": 0}; accepted = 0; explained = 0; tstates = 0; first_trace = None
-        for f in f_rand:
+        for f in f_rand + [f_script]:
             res, val = f.result()
             s = judge(res, "random hostile history")
             if s:
@@ -277,7 +302,7 @@ def run(v, tier, seed):
            "behaviours_replayed": agg["behaviours"], "behaviours_followed_to_the_end": agg["followed"], "behaviours_drifted": agg["drifted"], "replay_steps": agg["steps"],
            "server_instances": agg["server_runs"], "departure_cut_runs": agg["cut_runs"], "behaviours_with_every_cut": len(cuts), "probing_rounds": agg["probes"],
            "graph_edges": sum(g["edges"] for g in gens), "graph_states": sum(g["states"] for g in gens), "menu_commands": nmenu,
-           "random_histories": ragg["histories"], "random_steps": ragg["steps"], "histories_validated_by_tlc": accepted, "trace_lines_explained_by_tlc": explained, "trace_states": tstates,
+           "random_histories": ragg["histories"] - len(scripts), "directed_multi_session_histories": len(scripts), "random_steps": ragg["steps"], "histories_validated_by_tlc": accepted, "trace_lines_explained_by_tlc": explained, "trace_states": tstates,
            "vacuity_guards": guards,
            "evaluations": agg["behaviours"] + agg["cut_runs"] + ragg["histories"], "distinct_nontrivial": agg["followed"],
            "rule": "behaviours = path cover of EVERY transition of the TLC state graph(s) of Isolation (%s), de-duplicated by their command sequence; non-trivial = followed to the end with all monitors silent and the whole observed state equal to the specification's after every step; cut runs = one server instance per (history, byte prefix, write mode); random histories: %d steps, any session acts" % (", ".join("%s: %d edges" % (g["tag"], g["edges"]) for g in gens), ns),
